@@ -36,7 +36,7 @@ ASSUMPTIONS = [
 PROBES = ["restart_after_other_use", "feature_all_steps", "resim_old_buffers_checked", "shared_underlier_resim",
           "prev_output_corrupted_then_hedged", "model_raise_then_hedged", "hedger_cast", "listed_hedge",
           "lazy_model", "requires_grad_flag_flipped", "kept_feature_reused", "listed_quote_vs_fresh_pricer", "clone_opposite_grad_mode", "clone_opposite_module_mode",
-          "kept_bs_module_reused", "attribute_assigned_on_live_object"]
+          "kept_bs_module_reused", "feature_object_shared_by_two_hedgers", "attribute_assigned_on_live_object", "relisted_between_calls"]
 
 
 class SimFault(Exception):
@@ -105,6 +105,11 @@ def generate(rng):
     compat = {}
     hedges_of = {}
     n_h = rng.choice([1, 2, 2])
+    # two hedgers may hold one and the same feature object (a ModuleOutput, possibly reading prev_hedge): what either of
+    # them computes must not depend on which of them used the feature last
+    want_share = n_h == 2 and rng.chance(0.35)
+    shared_mo = None
+    share_group = []
     for hi in range(n_h):
         hid = "h%d" % hi
         # derivatives this hedger will be used with
@@ -127,7 +132,11 @@ def generate(rng):
             okds = ds[:1]
             hl[okds[0]["id"]] = None
         ds = okds
+        if hi == 1 and shared_mo is not None:
+            ds, H, hl = list(shared_mo[1]), shared_mo[2], dict(shared_mo[3])
         mk = rng.choice(["linear", "mlp", "mlp", "sin", "pf_mlp", "lazy_mlp", "naked", "bs", "ww"])
+        if want_share and (hi == 0 or shared_mo is not None):
+            mk = rng.choice(["linear", "mlp", "mlp", "sin", "pf_mlp"])
         feats = None
         if mk in ("bs", "ww"):
             cands = [d for d in ds if d["kind"] in BS_INPUTS and pk[d["underlier"]]["kind"] in HAS_VOL
@@ -155,6 +164,17 @@ def generate(rng):
                 inner_in = rng.sample([f for f in adm if f != "prev_hedge"], rng.randint(1, 2))
                 feats.append({"f": "module_output", "module": {"kind": "linear", "in": len(inner_in), "out": 1,
                                                                "init_seed": rng.seed31()}, "inputs": inner_in})
+            if want_share and hi == 0:
+                inner_in = rng.sample([f for f in adm if f != "prev_hedge"], rng.randint(1, 2)) + (["prev_hedge"] if rng.chance(0.7) else [])
+                fs = {"f": "module_output", "share": "s0", "inputs": inner_in,
+                      "module": {"kind": "linear", "in": sum(H if f == "prev_hedge" else 1 for f in inner_in), "out": 1,
+                                 "init_seed": rng.seed31()}}
+                shared_mo = (fs, ds, H, hl)
+                feats.append(fs)
+                share_group.append(hid)
+            elif want_share and shared_mo is not None:
+                feats.append(copy.deepcopy(shared_mo[0]))
+                share_group.append(hid)
             if mk == "lazy_mlp" and H > 1 and "prev_hedge" in feats:
                 feats.remove("prev_hedge")  # fit() materialises lazy layers with the default hedge (see C15)
                 if not feats:
@@ -167,7 +187,9 @@ def generate(rng):
                 m["units"] = [rng.randint(2, 6)]
                 m["act"] = rng.choice(["tanh", "relu", "softplus"])
             models.append(m)
-        hedgers.append({"id": hid, "model": "m%d" % hi, "inputs": feats, "criterion": rng.choice(crits)["id"]})
+        # a third of the hedgers rely on the default criterion: ONE EntropicRiskMeasure instance shared by all of them
+        hedgers.append({"id": hid, "model": "m%d" % hi, "inputs": feats,
+                        "criterion": None if rng.chance(0.33) else rng.choice(crits)["id"]})
         compat[hid] = [d["id"] for d in ds]
         hedges_of[hid] = hl
     world = {"primaries": prims, "derivatives": derivs, "models": models, "criteria": crits, "hedgers": hedgers}
@@ -181,7 +203,12 @@ def generate(rng):
     def too_short(d):
         # a forward-start payoff needs the grid to reach its start index
         return d["kind"] == "EuropeanForwardStartOption" and simk[d["underlier"]] < d["_k"]
-    pdtype = {p["id"]: (p["dtype"] or "float32") for p in prims}
+    pdecl = {p["id"]: p["dtype"] for p in prims}          # declared dtype (None = follows the global default)
+    pbuf = {p["id"]: None for p in prims}                 # dtype of the current buffers
+    gdef = ["float32"]                                    # the process-global default dtype
+
+    def new_sim_dtype(pid):
+        return pdecl[pid] or gdef[0]
     mdtype = {h["id"]: "float32" for h in hedgers}
     ops = []
     n_ops = rng.randint(6, 30) * (2 if rng.big else 1)
@@ -197,7 +224,16 @@ def generate(rng):
         kind = rng.wchoice([("simulate", 3), ("hedger_op", 6), ("quant", 4), ("cast", 1), ("fault", 10 * fault_rate), ("set_attr", 1)])
         if kind == "set_attr":
             # the user re-parameterises a live object: results afterwards depend on the new attribute only
-            if rng.chance(0.35):
+            listed_ds = [x for x in derivs if x.get("listed")]
+            if listed_ds and rng.chance(0.3):
+                dl = rng.choice(listed_ds)
+                newp = rng.choice(["affine:2.0:0.25", "affine:0.5:0.0", "sq:0.5"])
+                emit({"op": "relist", "target": dl["id"], "pricer": newp, "cost": rng.choice([0.0, 1e-3, 0.01])}, actor)
+                dl["listed"] = {"pricer": newp, "cost": 0.0}   # generation-time view; execution keeps its own copy
+            elif rng.chance(0.2):
+                gdef[0] = rng.choice(["float32", "float64"])
+                emit({"op": "default_dtype", "dtype": gdef[0]}, actor)
+            elif rng.chance(0.35):
                 # another calendar on the same objects: dt changes, maturities keep their number of steps -> identical shapes
                 p = rng.choice(prims)
                 from ..gen import DTS
@@ -217,6 +253,7 @@ def generate(rng):
                 op = {"op": "simulate", "target": d["id"], "n_paths": n, "torch_seed": rng.seed31()}
                 sim[d["underlier"]] = n
                 simk[d["underlier"]] = d["_k"]
+                pbuf[d["underlier"]] = new_sim_dtype(d["underlier"])
             else:
                 p = rng.choice(prims)
                 n = rng.choice([1, 2, 3, 5])
@@ -224,6 +261,7 @@ def generate(rng):
                       "time_horizon": rng.randint(9, 12) * p["params"]["dt"]}
                 sim[p["id"]] = n
                 simk[p["id"]] = 9
+                pbuf[p["id"]] = new_sim_dtype(p["id"])
             emit(op, actor)
         elif kind == "hedger_op":
             h = rng.choice(hedgers)
@@ -237,9 +275,12 @@ def generate(rng):
                 emit({"op": "simulate", "target": d["id"], "n_paths": n, "torch_seed": rng.seed31()}, actor)
                 sim[ul] = n
                 simk[ul] = d["_k"]
-            if mdtype[h["id"]] != pdtype[ul]:
-                emit({"op": "hedger_to", "hedger": h["id"], "dtype": pdtype[ul]}, actor)
-                mdtype[h["id"]] = pdtype[ul]
+                pbuf[ul] = new_sim_dtype(ul)
+            need = new_sim_dtype(ul) if ck in RESIM else pbuf[ul]
+            if mdtype[h["id"]] != need:
+                for hid_ in (share_group if h["id"] in share_group else [h["id"]]):  # a shared module is cast for all its holders
+                    emit({"op": "hedger_to", "hedger": hid_, "dtype": need}, actor)
+                    mdtype[hid_] = need
             op = {"op": "compute", "kind": ck, "hedger": h["id"], "derivative": d["id"],
                   "hedge": hedges_of[h["id"]][d["id"]], "torch_seed": rng.seed31(),
                   "restart": rng.chance(0.6), "grad_mode": rng.choice([None, None, "no_grad", "enable_grad"])}
@@ -254,6 +295,7 @@ def generate(rng):
                     op["n_times"] = rng.choice([1, 1, 2])
                 sim[ul] = op["n_paths"]
                 simk[ul] = d["_k"]
+                pbuf[ul] = new_sim_dtype(ul)
             emit(op, actor)
         elif kind == "quant":
             qk = rng.wchoice([("payoff", 2), ("feature", 5), ("listed_spot", 3), ("bs_bound", 2), ("bs_explicit", 2),
@@ -305,12 +347,15 @@ def generate(rng):
                 p = rng.choice(prims)
                 dt = rng.choice(["float32", "float64"])
                 emit({"op": "instrument_to", "target": p["id"], "dtype": dt}, actor)
-                pdtype[p["id"]] = dt
+                pdecl[p["id"]] = dt
+                if pbuf[p["id"]] is not None:
+                    pbuf[p["id"]] = dt
             else:
                 h = rng.choice(hedgers)
                 dt = rng.choice(["float32", "float64"])
-                emit({"op": "hedger_to", "hedger": h["id"], "dtype": dt}, actor)
-                mdtype[h["id"]] = dt
+                for hid_ in (share_group if h["id"] in share_group else [h["id"]]):
+                    emit({"op": "hedger_to", "hedger": hid_, "dtype": dt}, actor)
+                    mdtype[hid_] = dt
         else:
             h = rng.choice(hedgers)
             fk = rng.choice(["corrupt_prev_output", "corrupt_prev_output", "model_raise"])
@@ -573,6 +618,19 @@ def _execute(program, stats, hist):
             cast_module_outputs(h.inputs, DT[op["dtype"]])
             stats.probe("hedger_cast")
             hist.add(actor=op.get("actor"), op="hedger_to", hedger=op["hedger"], dtype=op["dtype"])
+        elif name == "relist":
+            from ..world import make_pricer
+            dl_ = world.derivatives[op["target"]]
+            dl_.list(make_pricer(op["pricer"]), cost=op["cost"])
+            world.spec_of("derivatives", op["target"])["listed"] = {"pricer": op["pricer"], "cost": op["cost"]}
+            stats.probe("relisted_between_calls")
+            hist.add(actor=op.get("actor"), op="relist", target=op["target"], pricer=op["pricer"])
+        elif name == "default_dtype":
+            # the process-global default changes between two operations (F4); declared dtypes keep instruments where they are,
+            # instruments without a declared dtype follow on their next simulation - results must still not depend on history
+            torch.set_default_dtype(DT[op["dtype"]])
+            stats.fault("F4_default_dtype_flip")
+            hist.add(actor=op.get("actor"), op="default_dtype", dtype=op["dtype"])
         elif name == "rescale_time":
             p_ = world.primaries[op["target"]]
             old_dt = float(p_.dt)
@@ -586,12 +644,18 @@ def _execute(program, stats, hist):
             hist.add(actor=op.get("actor"), op="rescale_time", target=op["target"], dt=op["dt"])
         elif name == "set_attr":
             setattr(world.instrument(op["target"]), op["attr"], op["value"])
+            if op["attr"] == "strike":
+                # a Black-Scholes module copies strike / call flag when it is built: a module built earlier legitimately keeps
+                # the old contract, so it is not compared with a fresh one any more
+                world.__dict__.setdefault("_kept_bs", {}).pop(op["target"], None)
             stats.probe("attribute_assigned_on_live_object")
             hist.add(actor=op.get("actor"), op="set_attr", target=op["target"], attr=op["attr"], value=op["value"])
         elif name == "instrument_to":
             world.primaries[op["target"]].to(DT[op["dtype"]])
             hist.add(actor=op.get("actor"), op="instrument_to", target=op["target"], dtype=op["dtype"])
         elif name == "compute":
+            if any(isinstance(f, dict) and f.get("share") for f in world.spec_of("hedgers", op["hedger"])["inputs"]):
+                stats.probe("feature_object_shared_by_two_hedgers")
             hazard = _do_compute(world, op, stats, hist, seq, used, tainted, pending_raise) or hazard
         elif name == "quant":
             hz = _do_quant(world, op, stats, hist, seq)
@@ -897,7 +961,7 @@ def _do_quant(world, op, stats, hist, seq):
             callers, site = _functional(op, stats, seq)
         else:
             raise Inconclusive("unknown quant op")
-    except Inconclusive:
+    except (Inconclusive, Violation):
         raise
     except Exception as e:
         raise Inconclusive("quant op %s raised: %r" % (site, e))
